@@ -8,7 +8,10 @@ package codex
 // getStatus demands a *tubes.Reliable, so the bytes travel over a real muxer
 // pair on vlib/memconn inside a synctest bubble. The muxers' goroutines
 // allocate while the call runs (read buffers, frames), hence the coarser
-// allowance of 8 MiB + 16 x len(input).
+// allowance of 8 MiB + 16 x len(input). The delivery pattern of a case
+// (wire.Delivery) decides whether the answer is there before getStatus starts
+// (one write) or reaches the blocked reader in several writes, each delivered
+// and read before the next is made.
 
 import (
 	"encoding/binary"
@@ -23,6 +26,7 @@ import (
 	"pgregory.net/rapid"
 	"verif.local/vlib"
 	"verif.local/vlib/memconn"
+	"verif.local/vlib/wire"
 
 	"hop.computer/hop/common"
 	"hop.computer/hop/tubes"
@@ -34,6 +38,7 @@ type c11sCase struct {
 	Body    int    `json:"body"`    // bytes of message actually sent
 	Cut     int    `json:"cut"`     // >=0: whole input truncated to this many bytes
 	Seed    uint64 `json:"seed"`
+	Dlv     wire.Delivery `json:"dlv"` // Pieces(len, 24) = separate writes (zero value: one write, there before the reader starts)
 }
 
 var c11sLens = []uint32{0, 1, 0xFF, 0x100, 0xFFFF, 0x10000, 0x10001, 0xFFFFFF, 0x2000000, 0x3FFFFFF}
@@ -77,6 +82,8 @@ func c11sQuiet() *logrus.Entry {
 func c11sRun(t *testing.T) func(c c11sCase, v *vlib.Verdict) {
 	return func(c c11sCase, v *vlib.Verdict) {
 		in := c.input()
+		pieces := c.Dlv.Pieces(len(in), 24)
+		v.Labelf("delivery=%s", map[bool]string{true: "one-write", false: "several-writes"}[len(pieces) == 1])
 		var alloc uint64
 		returned := false
 		problem := ""
@@ -99,8 +106,17 @@ func c11sRun(t *testing.T) func(c c11sCase, v *vlib.Verdict) {
 				}
 				tb := acc.(*tubes.Reliable)
 				go func() {
-					if len(in) > 0 {
-						tb.Write(in)
+					left := in
+					if len(pieces) > 1 {
+						time.Sleep(600 * time.Millisecond) // the reader is blocked in Read by now
+						for _, n := range pieces[:len(pieces)-1] {
+							tb.Write(left[:n])
+							left = left[n:]
+							time.Sleep(5 * time.Millisecond) // virtual: elapses once the piece was delivered and read
+						}
+					}
+					if len(left) > 0 {
+						tb.Write(left)
 					}
 					time.Sleep(time.Second)
 					tb.Close()
@@ -157,7 +173,7 @@ func c11sRun(t *testing.T) func(c c11sCase, v *vlib.Verdict) {
 
 func TestVerifC11DecGetStatus(t *testing.T) {
 	vlib.Drive(t, vlib.Spec[c11sCase]{ID: "C11", Quick: 1500, Run: c11sRun(t), Gen: func(t *rapid.T) c11sCase {
-		c := c11sCase{Seed: rapid.Uint64().Draw(t, "seed"), Cut: -1, LenKind: -1}
+		c := c11sCase{Seed: rapid.Uint64().Draw(t, "seed"), Cut: -1, LenKind: -1, Dlv: wire.DrawDelivery(t)}
 		c.First = rapid.SampledFrom([]int{0, 1, 2, 3, 255}).Draw(t, "first")
 		c.Body = rapid.SampledFrom([]int{0, 1, 10, 300, 70000}).Draw(t, "body")
 		if rapid.IntRange(0, 3).Draw(t, "lk") > 0 {
